@@ -120,7 +120,7 @@ func VH_C04B() {
 	var attrs Attrs
 	var mk func(key string, d int) (Attr, want)
 	mk = func(key string, d int) (Attr, want) {
-		switch vChoose(19) {
+		switch vChoose(20) {
 		case 0:
 			s := vString(1)
 			k := ""
@@ -146,10 +146,11 @@ func VH_C04B() {
 		case 7:
 			return NewAttr(key, complex(1, 2)), want{key, func(v vJ) bool { return v.kind == 's' }, ""}
 		case 8:
-			d := 1500 * time.Millisecond
-			return NewAttr(key, d), want{key, func(v vJ) bool { return v.kind == 's' && v.str != "" }, ""}
+			d := []time.Duration{1500 * time.Millisecond, 1, 90061000000001, -1500 * time.Millisecond}[vChoose(4)]
+			return NewAttr(key, d), want{key, func(v vJ) bool { return vSameDuration(v, d) }, ""}
 		case 9:
-			return NewAttr(key, vTime0()), want{key, func(v vJ) bool { return v.kind == 's' && strings.Contains(v.str, "22:13:20") }, ""}
+			t := vTimes()[vChoose(3)]
+			return NewAttr(key, t), want{key, func(v vJ) bool { return vSameInstant(v, t) }, ""}
 		case 10:
 			return NewAttr(key, errors.New("boom")), want{key, func(v vJ) bool {
 				if v.kind == 's' {
@@ -189,6 +190,16 @@ func VH_C04B() {
 			}, ""}
 		case 17:
 			return NewAttr(key, vFallback{1, "x"}), want{key, func(v vJ) bool { return v.kind == 's' || v.kind == 'o' }, ""}
+		case 19:
+			ts := vTimes()
+			if vBool() {
+				return NewAttr(key, []time.Time{ts[1], ts[0]}), want{key, func(v vJ) bool {
+					return v.kind == 'a' && len(v.arr) == 2 && vSameInstant(v.arr[0], ts[1]) && vSameInstant(v.arr[1], ts[0])
+				}, ""}
+			}
+			return NewAttr(key, []time.Duration{1, 1500 * time.Millisecond}), want{key, func(v vJ) bool {
+				return v.kind == 'a' && len(v.arr) == 2 && vSameDuration(v.arr[0], 1) && vSameDuration(v.arr[1], 1500*time.Millisecond)
+			}, ""}
 		case 18:
 			// group, nested to the depth bound, possibly empty
 			var members []any
@@ -252,4 +263,30 @@ func VH_C04B() {
 		vAssert(c == 1, "C04: one member per attribute key")
 		vAssert(w.check(v), "C04: the attribute's value is preserved")
 	}
+}
+
+// vTimes: instants whose exact value needs all nine fractional digits and a zone offset.
+func vTimes() []time.Time {
+	return []time.Time{vTime0(), time.Unix(0, 1).UTC(), time.Date(2024, 2, 29, 23, 59, 59, 999999999, time.FixedZone("", 5*3600+1800))}
+}
+
+// vSameInstant: the JSON value is a string that parses (RFC 3339) to exactly t.
+func vSameInstant(v vJ, t time.Time) bool {
+	if v.kind != 's' {
+		return false
+	}
+	got, err := time.Parse(time.RFC3339Nano, v.str)
+	return err == nil && got.Equal(t)
+}
+
+// vSameDuration: the JSON value is a duration string, or a number of nanoseconds, equal to d.
+func vSameDuration(v vJ, d time.Duration) bool {
+	if v.kind == 'n' {
+		return v.str == strconv.FormatInt(int64(d), 10)
+	}
+	if v.kind != 's' {
+		return false
+	}
+	got, err := time.ParseDuration(v.str)
+	return err == nil && got == d
 }
